@@ -746,6 +746,14 @@ func failedCallsRemembered(c *kit.Ctx, sb *ssa.Function, sticky *ssa.Alloc, stic
 							k = ex.Index
 						}
 					}
+					// if x { flag = true }
+					if kc, ok := st.Val.(*ssa.Const); ok && kc.Value != nil && kc.Value.ExactString() == "true" {
+						for _, f := range kit.FactsAt(st.Block()) {
+							if f.Pol && kit.Root(f.Cond) == ssa.Value(ex) {
+								k = ex.Index
+							}
+						}
+					}
 				}
 			}
 		}
